@@ -525,3 +525,74 @@ func ruleSemaphorePairing(sc scope) ruleFn {
 		_ = n
 	}
 }
+
+// ruleCancelOwnership (R8d): a context.CancelFunc is called/deferred by the function that
+// created it and goes nowhere else. Handing it to other code lets one unit of work cancel
+// the context of others that share it.
+func ruleCancelOwnership(r *Run) {
+	const rule = "R8d"
+	n := 0
+	for _, fn := range r.P.Funcs {
+		for _, ins := range allInstrs(fn) {
+			c, ok := ins.(*ssa.Call)
+			if !ok {
+				continue
+			}
+			switch calleeName(&c.Call) {
+			case "context.WithCancel", "context.WithTimeout", "context.WithDeadline", "context.WithCancelCause":
+			default:
+				continue
+			}
+			for _, ref := range *c.Referrers() {
+				ex, ok := ref.(*ssa.Extract)
+				if !ok || ex.Index != 1 {
+					continue
+				}
+				n++
+				var bad ssa.Instruction
+				var check func(v ssa.Value)
+				check = func(v ssa.Value) {
+					for _, u := range *v.Referrers() {
+						switch x := u.(type) {
+						case *ssa.Defer:
+							if x.Call.Value != v {
+								bad = u
+							}
+						case *ssa.Call:
+							if x.Call.Value != v {
+								bad = u
+							}
+						case *ssa.Store:
+							al, isAl := x.Addr.(*ssa.Alloc)
+							if !isAl || x.Val != v {
+								bad = u
+								continue
+							}
+							// local cell: every load must again be only called/deferred here; no capture
+							for _, r2 := range *al.Referrers() {
+								switch y := r2.(type) {
+								case *ssa.UnOp:
+									check(y)
+								case *ssa.Store:
+								default:
+									bad = r2
+								}
+							}
+						case *ssa.DebugRef:
+						default:
+							bad = u
+						}
+					}
+				}
+				check(ex)
+				site := r.P.pos(c.Pos())
+				if bad == nil {
+					r.OK(rule, fnName(fn), "cancel func of "+calleeName(&c.Call), site, "only called/deferred by the function that created the context")
+				} else {
+					r.Bad(rule, fnName(fn), "cancel func of "+calleeName(&c.Call), r.P.pos(bad.Pos()), "the cancel function of a context leaves the function that created it (stored, captured or passed on): whoever receives it can cancel every unit of work that shares the context — e.g. one failing operation of a batch aborting the in-flight sub-requests of its siblings")
+				}
+			}
+		}
+	}
+	r.AtLeast(rule, "cancellable contexts", n, 1)
+}
